@@ -27,6 +27,17 @@ CHECKS['C08'] = dict(
     text='For all 361 scale pairs (Decimal x Decimal: eq, partial_cmp, cmp) and 19 scales x 9 integer types x both positions, every return path\'s path condition implies that the returned ordering / equality is the sign of 10^(m-p)x - 10^(m-q)y over the integers, including the arms where scale alignment overflows (three-way fits/below/above split of every checked multiplication); partial_cmp has no None path, cmp no panic path. Derived operators are core\'s provided methods (R-IMPLSHAPE).',
     note=TB + 'core\'s provided PartialOrd/Ord methods; rkyv derive (thorough tier analyses the archived impls when built).')
 
+CHECKS['C14'] = dict(
+    category='proof', design_ref='DESIGN.md section 5 C14, Appendix A.8',
+    technique=ABSINT,
+    text='Per (target type, scale) cell (10 x 19) with a symbolic coefficient over the full range: Ok(v) paths imply x = 10^p*v and v within the target type; NotAnIntValue paths imply x mod 10^p != 0 whatever the range; ValueOutOfRange paths imply divisibility and an out-of-range quotient; all classes reachable. Decimal::from(i) is (i,0) as a term for the 9 integer types; try_from(u128) splits exactly at i128::MAX.',
+    note=TB + 'core TryFrom between integer types (modelled).')
+CHECKS['C15'] = dict(
+    category='proof', design_ref='DESIGN.md section 5 C15, Appendix A.9',
+    technique=ABSINT + ' (known-bits derived from intervals for the branch-free log10)',
+    text='Per scale cell each return path of floor/ceil/trunc/fract implies the defining inequalities (e.g. 0 <= x - 10^p*floor < 10^p), neg/abs return the exact terms, the four predicates have exactly their truth condition; magnitude is proved constant k-p on each of the 39 decades x 2 signs x 19 scales and 0 for zero (exhaustive: every decade cell contains both end points). Thorough tier adds the num-traits impls (forwarders, signum, abs_sub, from_str_radix).',
+    note=TB + 'The defect found by this check (magnitude of a non-normalised zero) is repaired by a fix: commit in /repo.')
+
 NOT_APPLICABLE = {
     'C07': 'Display/parse round trip is a value-level property of run-time digit strings across two algorithms (core::fmt and a byte parser); no structural clause that is both necessary and checkable without executing or symbolically solving; see DESIGN.md section 7.',
     'C12': 'Bit-exact float rounding of Decimal -> f64/f32 over 2^127 x 19 inputs: no sound static abstract domain in reach relates the produced bit pattern to the nearest float; see DESIGN.md section 7.',
